@@ -61,7 +61,12 @@ pub fn exec(rec: &Value, _st: &mut State) -> Value {
             let uvv: Vec<Point2> = verts.iter().map(|p| Point2::new(p.x, fl * p.y)).collect();
             let map = match UvMapping::new(uvv.clone(), faces.clone()) { Ok(m) => m, Err(_) => return json!({"ok": false}) };
             let moved: Vec<Point3> = verts.iter().map(|p| t * p).collect();
-            let mesh = Mesh::new_with_uv(moved.clone(), faces.clone(), false, Some(map));
+            // `ctor` = 1: the other constructor that accepts a uv map (no merging, no deletion of degenerate faces)
+            let mesh = if gi_or(rec, "ctor", 0) == 1 {
+                match Mesh::new_with_options(moved.clone(), faces.clone(), false, false, false, Some(map)) { Ok(m) => m, Err(_) => return json!({"ok": false}) }
+            } else {
+                Mesh::new_with_uv(moved.clone(), faces.clone(), false, Some(map))
+            };
             // probe points: rational barycentric combinations on every face (sixths)
             let bcs: [[i64; 3]; 7] = [[2, 2, 2], [3, 3, 0], [0, 3, 3], [3, 0, 3], [6, 0, 0], [4, 1, 1], [1, 1, 4]];
             let mut probes = vec![];
